@@ -1022,7 +1022,7 @@ class Sym:
             mut_ok = not mut_idx or (self.inline_mut and all(vals[i][0] in ("place", "pl") for i in mut_idx)
                                      and not any(re.match(r"^&mut [A-Z]\w*$", (p_.get("ty") or "")) for p_ in b["params"]))
             if b["krate"] in self.krates and not self.opaque(tgt) and tgt not in self.stack \
-                    and len(self.stack) <= self.inline_depth and mut_ok and not has_loop(b):
+                    and len(self.stack) <= self.inline_depth and mut_ok and (not has_loop(b) or self.inline_mut):
                 # generic helper: remember what its type parameters stand for at this call site (type-qualified callee names
                 # inside it - Pod::slice_from_prefix<T>, parse::<F> - must name the concrete type)
                 gens, targs = b.get("generics") or [], [self.subst_ty(t_) for t_ in (f.get("targs") or [])]
